@@ -5,11 +5,12 @@ import (
 	"context"
 	"fmt"
 	"io"
-	"sort"
+	"os"
 	"strings"
 	"sync"
 	"time"
 
+	"github.com/dgraph-io/ristretto/v2"
 	"github.com/lavanet/lava/v5/protocol/chainlib"
 	"github.com/lavanet/lava/v5/protocol/common"
 	"github.com/lavanet/lava/v5/utils"
@@ -709,11 +710,6 @@ func runC36(r *simrt.Run) {
 				return
 			}
 		}
-		keys := make([]string, 0)
-		for k := range r.Probes {
-			keys = append(keys, k)
-		}
-		sort.Strings(keys)
 	})
 }
 
@@ -745,4 +741,20 @@ func c36InitCache(cs *CacheServer, ctx context.Context, expiration, expirationNo
 	cs.tempCache = c36NewRistretto(cs)
 	cs.finalizedCache = c36NewRistretto(cs)
 	cs.blocksHashesToHeightsCache = c36NewRistretto(cs)
+}
+
+var useRealInit = os.Getenv("VERIF_C36_REAL_INIT") == "1"
+
+func c36NewRistretto(cs *CacheServer) *ristretto.Cache[string, any] {
+	c, err := ristretto.NewCache(&ristretto.Config[string, any]{
+		NumCounters: 100000,
+		MaxCost:     cs.CacheMaxCost,
+		BufferItems: 64,
+		Metrics:     true,
+		OnEvict:     func(item *ristretto.Item[any]) { cs.CacheMetrics.AddExpired() },
+	})
+	if err != nil {
+		panic(err)
+	}
+	return c
 }
